@@ -177,6 +177,13 @@ round8 = {
 for k, v in round8.items():
     claimed[k]["text"] += v
 
+# parts added in the ninth session (DESIGN.md §11.10)
+round9 = {
+ "C17": " Refused-inside-the-transaction part: an expression index that cannot be evaluated over some rows (abs of the smallest integer over a missing xattr / body property) makes the INSERT / UPDATE of a write fail inside its transaction, after the entry point has incremented the revision and filled in its event; one key goes through random histories of 19 kinds of mutating calls, each judged by what the call itself returned: acknowledged -> $document.revid +1 (1 on creation) and one live event carrying that number, refused -> revision unchanged and no event (a fence write on another key closes each call's window).",
+}
+for k, v in round9.items():
+    claimed[k]["text"] += v
+
 pending_reason = "check under construction in this session (design in DESIGN.md); it is claimed once its monitors are built and silent on the unchanged tree"
 m = {
  "version": 1,
